@@ -260,6 +260,14 @@ fn context_devs_inner() -> Vec<Dev> {
             s.syntax.push("iter-ext-trait".into());
             true
         }),
+        dev("context: the enum's variants are glob-imported where it is declared (`use E::*;`)", &["ctx"], |s| {
+            s.syntax.push("variants-in-scope".into());
+            true
+        }),
+        dev("context: the enum has inherent methods into / clone / eq / get / as_ref / from / default with unrelated signatures", &["ctx"], |s| {
+            s.syntax.push("inherent-methods".into());
+            true
+        }),
     ]
 }
 
